@@ -95,7 +95,7 @@ def replay_reject_twophase(model):
     return True, {"what": f"relative_permeabilities_twophase accepted inadmissible parameters (Sw={sw!r}) without an error", "inputs": m}
 
 
-def replay_twophase(model, exps=(2, 2, 2)):
+def replay_twophase(model, exps=(2, 2, 2), again=False):
     import numpy as np
     from bluebonnet.flow import flowproperties as fp
     m = model_floats(model, PNAMES + ["Sw"], default={k: 0.0 for k in PNAMES + ["Sw"]})
@@ -104,6 +104,11 @@ def replay_twophase(model, exps=(2, 2, 2)):
     try:
         with np.errstate(all="ignore"):
             df = fp.relative_permeabilities_twophase(params, m["Sw"])
+            if again:
+                # the caller converts the table it got to percent in place, then asks for the same curves again
+                for c in ("So", "Sw", "Sg", "kro", "krw", "krg"):
+                    df[c] = df[c] * 100 + 1
+                df = fp.relative_permeabilities_twophase(fp.RelPermParams(**{k: m[k] for k in PNAMES}), m["Sw"])
     except ValueError as ex:
         return (m["Sw"] <= m["S_wc"]), {"what": f"raised {ex}", "inputs": m}
     if m["Sw"] > m["S_wc"]:
@@ -289,7 +294,9 @@ def job_reject_mixed(job):
                 job.record(f"reject/mixed[{bad_at},{sense}]: {raised} of {len(res)} path(s) raise ValueError", "unsat" if raised == len(res) else "see paths", 0.0)
 
 
-def job_twophase(job, exps):
+def job_twophase(job, exps, again=False):
+    """`again`: the table of a first call is modified in place by its caller (saturations to percent), then the same curves
+    are requested again with equal arguments: the second table must be the Brooks-Corey table, not the caller's edit."""
     mod = _load()
     job.encoded(mod, "relative_permeabilities_twophase", "relative_permeabilities")
     job.stub("pandas.DataFrame / to_records / concat: exact column containers (SymFrame)")
@@ -297,9 +304,17 @@ def job_twophase(job, exps):
     params, pv, dom = _params(mod, exps)
     sw = fresh("Sw")
     dom = dom + [T.b_le0(T.p_neg(P(sw))), T.b_le(P(sw), T.ONE)]
-    tag = ",".join(map(str, exps))
-    res = paths(job, lambda: mod.relative_permeabilities_twophase(params, sw), dom, catch=(ValueError,))
-    rp = (replay_twophase, {"exps": list(exps)})
+    tag = ",".join(map(str, exps)) + (";second call after the caller edited the first table" if again else "")
+
+    def run():
+        df = mod.relative_permeabilities_twophase(params, sw)
+        if again:
+            for c in ("So", "Sw", "Sg", "kro", "krw", "krg"):
+                df[c] = df[c] * 100 + 1
+            df = mod.relative_permeabilities_twophase(mod.RelPermParams(*tuple(params)), sw)
+        return df
+    res = paths(job, run, dom, catch=(ValueError,))
+    rp = (replay_twophase, {"exps": list(exps), "again": again})
     for k, pr in enumerate(res):
         if pr.exc is not None:
             # must only happen for Sw > S_wc
@@ -327,5 +342,6 @@ def jobs(tier):
     out.append(("kr-n212-fields-So-Sg-Sw", lambda j: job_kr(j, (2, 1, 2), ("So", "Sg", "Sw"))))
     out.append(("reject", job_reject))
     out.append(("reject-mixed", job_reject_mixed))
+    out.append(("twophase-n2-asked-again", lambda j: job_twophase(j, (2, 2, 2), True)))
     out += [(f"twophase-n{e[0]}", (lambda j, e=e: job_twophase(j, e))) for e in ([(2, 2, 2)] if tier == "quick" else [(1, 1, 1), (2, 2, 2), (3, 3, 3)])]
     return out
